@@ -23,6 +23,8 @@ def parseOp (ws : List String) : Option Op :=
     some (.world (rest.contains "a64") st)
   | ["init"] => some (.init .x64)
   | ["init", a] => some (.init (if a == "x86" then .x86 else if a == "a64" then .a64 else .x64))
+  | ["init", a, b] => (parseHex? b).map (.initb (if a == "x86" then .x86 else if a == "a64" then .a64 else .x64))
+  | ["link", b] => (parseHex? b).map .relocate
   | ["reset"] => some (.reset false)
   | ["reset", p] => some (.reset (p == "hard"))
   | ["reinit"] => some .reinit
